@@ -552,25 +552,27 @@ class Origins:
         return any(pred(c) for c in self.calls)
 
 
-def origins(prog, f, local, scope=None, call_filter=None, max_frames=6, _seen=None, _out=None):
+def origins(prog, f, local, scope=None, call_filter=None, max_frames=6, _seen=None, _out=None, _follow_callers=True):
     """Backward data-dependence of `local` in f; parameters are followed into every caller's argument
     (within `scope` paths if given). Closure upvars (`_1.N`) are followed to the creation site."""
     out = _out if _out is not None else Origins()
-    seen = _seen if _seen is not None else set()
+    seen = _seen if _seen is not None else {}
     key = (f.path, local)
-    if key in seen or max_frames < 0:
+    # budget-aware memo: a node reached again with a larger remaining budget is explored again, so the result does
+    # not depend on the (hash-dependent) order in which callers / callees are visited
+    if max_frames < 0 or seen.get(key, -1) >= max_frames:
         return out
-    seen.add(key)
+    seen[key] = max_frames
     user_filter = call_filter
     # the `?` residual conversion carries the *error* value, not the Ok payload: never follow it
     cf = (lambda c: c.name != "from_residual" and (user_filter is None or user_filter(c)))
-    dep, calls, consts = f.depends_on(local, call_filter=cf)
+    dep, calls, consts = f.depends_on(local, call_filter=cf, skip_context_args=True)
     calls = [c for c in calls if c.name != "from_residual"]
     out.calls.extend(calls)
     # closures passed along (e.g. `.and_then(|r| r.field)`): the value also depends on what the closure returns
     for bb, c in consts:
         if isinstance(c, dict) and c.get("closure") and c["closure"] in prog.fns:
-            origins(prog, prog.fns[c["closure"]], 0, scope, call_filter, max_frames - 1, seen, out)
+            origins(prog, prog.fns[c["closure"]], 0, scope, call_filter, max_frames - 1, seen, out, _follow_callers=False)
     # return-value summaries: a workspace callee's result depends on what its body returns
     for c in calls:
         if call_filter is not None and not call_filter(c):
@@ -578,8 +580,12 @@ def origins(prog, f, local, scope=None, call_filter=None, max_frames=6, _seen=No
         for t in prog.call_targets(c):
             if t.is_test_like() or (scope is not None and t.path not in scope):
                 continue
-            origins(prog, t, 0, scope, call_filter, max_frames - 1, seen, out)
+            # the callee's parameters are this call's arguments, which the caller frame already follows
+            origins(prog, t, 0, scope, call_filter, max_frames - 1, seen, out, _follow_callers=False)
     out.consts.extend((f, bb, c) for bb, c in consts)
+    for bb, c in consts:
+        if isinstance(c, dict) and "promoted" in c and c["promoted"] < len(f.promoted):
+            out.consts.extend((f, bb, it) for it in f.promoted[c["promoted"]])
     # field reads
     for l in dep:
         for bb, kind, x in f.defs().get(l, []):
@@ -599,10 +605,14 @@ def origins(prog, f, local, scope=None, call_filter=None, max_frames=6, _seen=No
                             if isinstance(e, str) and e.startswith("."):
                                 out.fields.add(e[1:])
     # parameters -> callers
-    for l in dep:
+    for l in sorted(dep):
         if 1 <= l <= f.nargs:
+            if f.is_context_local(l):
+                continue
+            if not _follow_callers and not (f.is_closure() and l == 1):
+                continue
             callers = []
-            for cp in prog.redges().get(f.path, ()):
+            for cp in sorted(prog.redges().get(f.path, ())):
                 if scope is not None and cp not in scope:
                     continue
                 cf = prog.fns[cp]
@@ -797,3 +807,108 @@ def arm_only(prog, f, bb, adt_last, allowed):
     if not cut:
         return False
     return bb not in reach_without_edges(f, 0, cut)
+
+
+# ---------------------------------------------------------------------------------------------
+# must-pass-through: every non-error return of F is preceded by a call satisfying pred (directly or in a callee)
+
+class MustPass:
+    def __init__(self, prog, pred):
+        self.prog = prog
+        self.pred = pred
+        self.memo = {}
+
+    def call(self, c):
+        if self.pred(c):
+            return True
+        ts = self.prog.call_targets(c)
+        return bool(ts) and all(self.fn(t) for t in ts)
+
+    def fn(self, f):
+        st = self.memo.get(f.path)
+        if st is not None:
+            return st if st != "inprogress" else False
+        self.memo[f.path] = "inprogress"
+        blocks = frozenset(c.bb for c in f.live_calls() if self.call(c))
+        res = False
+        if blocks:
+            if 0 in blocks:
+                res = True
+            else:
+                r = reach_without_edges(f, 0, set(), blocks | err_exit_blocks(f))
+                res = not any(f.term(b)["k"] == "return" for b in r)
+        self.memo[f.path] = res
+        return res
+
+
+# ---------------------------------------------------------------------------------------------
+# copy-provenance: the *producers* of a value, following only copies / wrappers / transparent conversions
+# (and parameters into every caller's argument). Unlike origins() this does not follow data dependence
+# through arbitrary calls, so it answers "which call's result IS this value".
+
+TRANSPARENT_CALLS = {"clone", "deref", "deref_mut", "borrow", "as_ref", "as_mut", "into", "from", "to_owned", "as_u64", "as_secs", "as_slice",
+                     "to_vec", "to_string", "as_str", "as_bytes", "branch", "unwrap", "expect", "map_err", "ok_or", "ok_or_else", "unwrap_or_default",
+                     "copied", "cloned", "new"}
+
+
+def producers(prog, f, local, scope=None, max_frames=5, _seen=None, _out=None):
+    out = _out if _out is not None else {"calls": [], "consts": [], "fields": set(), "params": []}
+    seen = _seen if _seen is not None else {}
+    key = (f.path, local)
+    if max_frames < 0 or seen.get(key, -1) >= max_frames:
+        return out
+    seen[key] = max_frames
+    st = [local]
+    visited = set()
+    while st:
+        l = st.pop()
+        if l in visited:
+            continue
+        visited.add(l)
+        defs = f.defs().get(l, [])
+        if not defs and 1 <= l <= f.nargs:
+            pass
+        for bb, kind, x in defs:
+            if kind == "stmt":
+                k = x.get("k")
+                if k in ("use", "ref", "cast", "agg", "tuple") and len(x["d"]) == 1:
+                    if k == "agg" and not x.get("o"):
+                        out["consts"].append((f, bb, {"agg": x.get("adt"), "variant": x.get("variant")}))
+                    for o in x.get("o", []):
+                        if "p" in o:
+                            out["fields"] |= set(e[1:] for e in o["p"][1:] if isinstance(e, str) and e.startswith(".") and not e[1:].isdigit())
+                            st.append(o["p"][0])
+                        elif "c" in o:
+                            out["consts"].append((f, bb, o["c"]))
+                elif len(x["d"]) == 1:
+                    out["consts"].append((f, bb, {"op": k}))
+            else:
+                c = x
+                if c.dst and c.dst[0] != l:
+                    continue     # &mut side effect, not the producer
+                if c.name in TRANSPARENT_CALLS and c.args and "p" in c.args[0] and (
+                        c.krate in ("core", "alloc", "std") or c.name in ("as_u64", "as_secs", "as_slice")
+                        or last_seg(c.trait) in ("Clone", "Deref", "DerefMut", "AsRef", "Borrow", "Into", "From", "ToOwned", "ToString")):
+                    if c.name == "new" and last_seg(c.self_adt) not in ("Secret",):
+                        out["calls"].append(c)
+                        continue
+                    out["fields"] |= set(e[1:] for e in c.args[0]["p"][1:] if isinstance(e, str) and e.startswith(".") and not e[1:].isdigit())
+                    st.append(c.args[0]["p"][0])
+                else:
+                    out["calls"].append(c)
+        if 1 <= l <= f.nargs and not any(k2 == "stmt" for _, k2, _ in defs):
+            callers = [prog.fns[p] for p in sorted(prog.redges().get(f.path, ())) if (scope is None or p in scope) and not prog.fns[p].is_test_like()]
+            if not callers or f.is_closure():
+                out["params"].append((f, l))
+            for cf in callers:
+                if f.is_closure():
+                    continue
+                for c in cf.live_calls():
+                    if any(t.path == f.path for t in prog.call_targets(c)) and l - 1 < len(c.args):
+                        a = c.args[l - 1]
+                        if "p" in a:
+                            out["fields"] |= set(e[1:] for e in a["p"][1:] if isinstance(e, str) and e.startswith(".") and not e[1:].isdigit())
+                            producers(prog, cf, a["p"][0], scope, max_frames - 1, seen, out)
+                        elif "c" in a:
+                            out["consts"].append((cf, c.bb, a["c"]))
+    return out
